@@ -71,7 +71,9 @@ PER = [(1, 10 ** 9), (1, 10 ** 6), (1, 1000), (1, 1), (60, 1), (3600, 1), (86400
 PQ = [Fraction(n, d) for n, d in PER]
 REPS = {"i16": (16, True), "i32": (32, True), "i64": (64, True), "u32": (32, False)}      # (width, signed)
 I64 = (64, True)
-NARROW = (("i16", "i16"), ("u32", "u32"), ("i64", "i16"), ("u32", "i32"))                # harness rc 7..10
+NARROW = (("i16", "i16"), ("u32", "u32"), ("i64", "i16"), ("u32", "i32"),                # harness rc 7..10
+          # rc 11..16: an unsigned / narrow operand next to a wider one (the common type differs from an operand's type)
+          ("i64", "u32"), ("u32", "i64"), ("i16", "i64"), ("i32", "u32"), ("i16", "i32"), ("i32", "i16"))
 SUB = (2, 4, 9)
 TPSET = (0, 2, 3, 4, 7, 9)
 CHUNK = 64
@@ -93,7 +95,7 @@ def enabled(r1, r2, k1, k2):
 
 def tp_enabled(r1, r2, k1, k2):
     if (r1, r2) in NARROW:
-        return False
+        return k1 in SUB and k2 in SUB
     if (r1, r2) == ("i64", "i64"):
         return (k1 in TPSET and k2 in TPSET) or k1 >= 10 or k2 >= 10
     if (r1, r2) == ("f64", "f64") or "f64" not in (r1, r2):
@@ -246,9 +248,25 @@ def dom2(op, r1, k1, r2, k2, a, b=0):
             if c is None or not fits(c[0], c[1] - c[2]) or not fits(c[0], c[2] - c[1]):
                 return False
         return fits(REPS[r2], low + 2)
-    if op in ("add", "sub", "plus", "minus", "diff"):
+    if op in ("add", "plus"):
+        # add_exact_builtin / tpPlus_exact_builtin: both operands converted to the common type FIRST, then the exact sum
         c = both_common(r1, k1, r2, k2, a, b)
-        return c is not None and fits(c[0], c[1] + c[2]) and fits(c[0], c[1] - c[2])
+        return c is not None and fits(c[0], c[1] + c[2])
+    if op in ("sub", "minus", "diff"):
+        # only the DIFFERENCE has to be representable: time_point<minutes>{-1} - minutes{INT32_MIN} is inside
+        c = both_common(r1, k1, r2, k2, a, b)
+        return c is not None and fits(c[0], c[1] - c[2])
+    if op in ("adda2", "moda2"):
+        # D1 x{a}; x += D2{b} / x -= D2{b} / x %= D2{b}: D2{b} is converted to D1 by the implicit converting constructor
+        n, d = CF[k2][k1]
+        if d != 1:
+            return fits(REPS[r1], a)            # does not convert implicitly: `n/a` on all sides
+        e = b * n
+        if not (fits(REPS[r1], a) and fits(REPS[r2], b) and fits(I64, e) and fits(REPS[r1], e)):
+            return False
+        if op == "moda2":
+            return e != 0 and not (a == rmin(REPS[r1]) and e == -1)
+        return fits(REPS[r1], a + e) and fits(REPS[r1], a - e)
     if op in ("div", "mod"):
         c = both_common(r1, k1, r2, k2, a, b)
         return c is not None and c[2] != 0 and not (c[1] == rmin(c[0]) and c[2] == -1)
@@ -301,6 +319,7 @@ OPS_BIN = ["add", "sub", "div", "mod", "cmp", "common"]
 OPS_TP2 = ["tp_cast", "tp_floor", "tp_ceil", "tp_round", "tp_cmp", "tp_conv"]
 OPS_ONE = ["abs", "neg", "pos", "inc", "dec", "adda", "suba", "mula", "diva", "moda", "modad", "tp_adda", "tp_suba", "tp_inc"]
 OPS_TPD = ["tp_plus", "tp_minus", "tp_diff"]          # [time.point.nonmember]
+OPS_ASSIGN2 = ["adda2", "moda2", "tp_adda2"]           # compound assignment with a duration of another type
 OPS_SCALAR = ["mul", "divr", "modr"]                   # [time.duration.nonmember]: duration and a tick count
 
 
@@ -318,6 +337,7 @@ def big_counts(rnd, n):
         v = rnd.getrandbits(bits)
         vs.add(v)
         vs.add(-v)
+    vs.add(I64MIN)
     return sorted(v for v in vs if fits(64, v))
 
 
@@ -372,6 +392,9 @@ def generate(tier, seed):
                     emit(op, "i64", k1, "i64", k2, av if wide else ring, b)
                 emit(op, "i64", k1, "i64", k2, big, rnd.choice(bs_fixed))
                 emit(op, "i64", k1, "i64", k2, big, rnd.choice(big))
+                if op in ("add", "sub", "cmp"):
+                    for b in (I64MIN, I64MAX):
+                        emit(op, "i64", k1, "i64", k2, ring + big[::3], b)
             add("ctype r1=i64 p1=%d r2=i64 p2=%d a=0" % (k1, k2), "ctype/i64,i64")
             if tp_enabled("i64", "i64", k1, k2):
                 for op in OPS_TP2:
@@ -380,6 +403,11 @@ def generate(tier, seed):
                     for b in (bs_fixed if thorough else [-7, 3]) + [rnd.randint(-2000, 2000), rnd.choice(big)]:
                         emit(op, "i64", k1, "i64", k2, (small if (thorough and b == 3) else ring) + big[::3], b)
                     emit(op, "i64", k1, "i64", k2, big, rnd.choice(big))
+                    for b in (I64MIN, I64MIN + 1, I64MAX):     # the most negative second operand: x - min is representable for x < 0
+                        emit(op, "i64", k1, "i64", k2, ring + big, b)
+                for op in OPS_ASSIGN2:
+                    for b in [-7, 3, rnd.choice(big)]:
+                        emit(op, "i64", k1, "i64", k2, ring + big[::3], b)
 
     # ---- int32 and mixed representations
     i32big = sorted({(1 << 31) - 1 - k for k in range(4)} | {-(1 << 31) + k for k in range(4)}
@@ -393,8 +421,15 @@ def generate(tier, seed):
                 for op in OPS_BIN:
                     for b in bs_fixed + [rnd.choice(i32big)]:
                         emit(op, r1, k1, r2, k2, ring + a_big, b)
-                for op in OPS_TPD:
-                    for b in bs_fixed + [rnd.choice(i32big)]:
+                b_edge = [rmin(REPS[r2]), rmin(REPS[r2]) + 1, rmax(REPS[r2])]
+                for op in OPS_TPD + ["tp_cmp"]:
+                    for b in bs_fixed + [rnd.choice(i32big)] + b_edge:
+                        emit(op, r1, k1, r2, k2, ring + a_big, b)
+                for op in ("add", "sub", "cmp"):
+                    for b in b_edge:
+                        emit(op, r1, k1, r2, k2, ring + a_big, b)
+                for op in OPS_ASSIGN2:
+                    for b in [-7, 3, rnd.choice(i32big)] + b_edge[:1]:
                         emit(op, r1, k1, r2, k2, ring + a_big, b)
                 add("ctype r1=%s p1=%d r2=%s p2=%d a=0" % (r1, k1, r2, k2), "ctype/%s,%s" % (r1, r2))
 
@@ -410,8 +445,23 @@ def generate(tier, seed):
             for k2 in SUB:
                 for op in OPS_CAST + ["conv"]:
                     emit(op, r1, k1, r2, k2, nvals[r1])
+                # second operands: small ones of both signs, the least and the greatest value of r2 (for a signed r2 the value whose
+                # negation is not representable, for an unsigned r2 values whose negation in r2 wraps), values above the signed range
+                t2 = REPS[r2]
+                bs = [1, 3, 5, 1000] + ([-7, -1] if t2[1] else [7, (1 << 31), (1 << 32) - 5])
+                bs += [rmin(t2), rmin(t2) + 1, rmax(t2), rnd.choice(nvals[r2])]
+                bs = sorted(set(bs))
                 for op in OPS_BIN:
-                    for b in [1, 3] + ([-7, -1] if REPS[r2][1] else [7]) + [rnd.choice(nvals[r2])]:
+                    for b in (bs if op in ("add", "sub", "cmp") or thorough else bs[:4] + bs[-1:]):
+                        emit(op, r1, k1, r2, k2, nvals[r1], b)
+                # time_point<D1> (+ -) D2, time_point<D1> - time_point<D2>, comparisons, time_point casts: mixed representations
+                for op in OPS_TPD + ["tp_cmp"]:
+                    for b in bs:
+                        emit(op, r1, k1, r2, k2, nvals[r1], b)
+                for op in ["tp_cast", "tp_floor", "tp_ceil", "tp_round", "tp_conv"]:
+                    emit(op, r1, k1, r2, k2, nvals[r1], 5)
+                for op in OPS_ASSIGN2:
+                    for b in (bs if thorough else bs[:6] + bs[-2:]):
                         emit(op, r1, k1, r2, k2, nvals[r1], b)
                 add("ctype r1=%s p1=%d r2=%s p2=%d a=0" % (r1, k1, r2, k2), "ctype/%s,%s" % (r1, r2))
 
